@@ -294,8 +294,7 @@ func (r *Runner) errf(format string, a ...any) {
 }
 
 func (r *Runner) stop(ctx context.Context) bool {
-	// Some traps trigger on exit, so we do want those to run.
-	if !r.handlingTrap && (r.exit.returning || r.exit.exiting) {
+	if r.exit.returning || r.exit.exiting {
 		return true
 	}
 	if err := ctx.Err(); err != nil {
@@ -370,6 +369,8 @@ func (r *Runner) stmtSync(ctx context.Context, st *syntax.Stmt) {
 			r.exit.clear()
 		}
 	} else if b, ok := st.Cmd.(*syntax.BinaryCmd); ok && (b.Op == syntax.AndStmt || b.Op == syntax.OrStmt) {
+	} else if r.exit.exiting || r.exit.returning {
+		// "exit 1" and "return 1" are not failed commands.
 	} else if !r.exit.ok() && !r.noErrExit {
 		r.trapCallback(ctx, r.callbackErr, "error")
 		// If the "errexit" option is set and a command failed, exit the shell. Exceptions:
@@ -904,7 +905,15 @@ func (r *Runner) trapCallback(ctx context.Context, callback, name string) {
 	}
 	oldExit, oldLastExit := r.exit, r.lastExit
 	r.lastExit = r.exit
+	r.trapEntryExit = r.exit
+	// Some traps trigger on exit, so we do want those to run.
+	r.exit.exiting, r.exit.returning = false, false
 	r.stmts(ctx, file.Stmts)
+	if r.exit.exiting {
+		// The trap ran "exit", or a command failed under "set -e":
+		// the shell exits with that status rather than the original one.
+		return
+	}
 	r.exit, r.lastExit = oldExit, oldLastExit // traps on EXIT or ERR should not modify the result
 }
 
